@@ -420,7 +420,7 @@ def run(ctx):
         access_case(ctx, rng, terms, expect)
     for _ in range(ctx.n(30, 500)):
         start_vector_case(ctx, rng, terms, expect)
-    model = ctx.coq_eval("c09", "Base.QN C09.Model", terms, shard=100)
+    model = ctx.coq_eval("c09", "Base.QN C09.Model", terms, shard=100, timeout=900)
     for (kind, obs, unknown, out), m in zip(expect, model):
         ctx.corr_checked += 1
         if kind == "start":
